@@ -2901,6 +2901,11 @@ func (c *codegen) convertStruct(lit *ast.CompositeLit, ptr bool) {
 }
 
 func (c *codegen) emitToken(tok token.Token, typ types.Type) {
+	if tok == token.AND_NOT || tok == token.AND_NOT_ASSIGN {
+		// The VM has no opcode of its own for x &^ y, which is x & ^y.
+		emit.Opcodes(c.prog.BinWriter, opcode.INVERT, opcode.AND)
+		return
+	}
 	op, err := convertToken(tok, typ)
 	if err != nil {
 		c.prog.Err = err
